@@ -112,7 +112,7 @@ impl<'a> PrettyPrinter<'a> {
                 ctx,
                 resolve_dot_chain(node),
                 |node| node.kind() == SyntaxKind::FieldAccess,
-                |child| {
+                |_node, child| {
                     if child.kind() == SyntaxKind::Dot {
                         Some(self.arena.text("."))
                     } else {
@@ -136,8 +136,7 @@ impl<'a> PrettyPrinter<'a> {
     }
 
     pub(super) fn convert_binary_chain(&'a self, ctx: Context, binary: Binary<'a>) -> ArenaDoc<'a> {
-        let op = binary.op();
-        let prec = op.precedence();
+        let prec = binary.op().precedence();
         ChainStylist::new(self)
             .process_resolved(
                 ctx,
@@ -146,9 +145,12 @@ impl<'a> PrettyPrinter<'a> {
                     node.cast::<Binary>()
                         .is_some_and(|binary| binary.op().precedence() == prec)
                 },
-                |child| {
-                    if child.kind() == SyntaxKind::In && op == BinOp::NotIn {
-                        Some(self.arena.text(op.as_str()))
+                |node, child| {
+                    // `not in` consists of two tokens. Whether an `in` belongs to one is decided by
+                    // the binary expression that holds it, not by the outermost one of the chain.
+                    let op = node.cast::<Binary>().map(|binary| binary.op());
+                    if child.kind() == SyntaxKind::In && op == Some(BinOp::NotIn) {
+                        Some(self.arena.text(BinOp::NotIn.as_str()))
                     } else {
                         BinOp::from_kind(child.kind()).map(|op| self.arena.text(op.as_str()))
                     }
